@@ -47,7 +47,7 @@ def check_model(chk, model, info, rng, lines, pend, tol=1e-7):
     info = dict(info, max_abs_potential=max(mags) if mags else 0.0)
     def q(kind, t, got):
         lines.append('q_brute %s %s %s' % (pre, tt, ltok([ids[a] for a in t])))
-        pend.append((dict(info, query=dict(kind=kind, attrs=list(t))), got, float(model.total), tol))
+        pend.append((dict(info, query=dict(kind=kind, attrs=list(t))), got, float(model.total), tol + (1e-14 * info['max_abs_potential'] if info['max_abs_potential'] <= 1e13 else 0.0)))
     with np.errstate(all='ignore'):
         if hasattr(model, 'marginals'):
             for cl in model.cliques:
@@ -78,7 +78,7 @@ def judge(chk, lines, pend):
             bad = 'answer is not finite'
         elif any(g < -1e-9 * total for g in got):
             bad = 'answer has a negative entry'
-        elif abs(sum(got) - total) > 1e-6 * max(1.0, total):
+        elif abs(sum(got) - total) > (1e-6 + tol) * max(1.0, total):
             bad = 'answer sums to %s, not to the total %s' % (sum(got), total)
         elif any(abs(g - e) > tol * abs(e) + 1e-7 * total for g, e in zip(got, exp)):
             bad = 'answer differs from the marginal implied by the stored parameters'
